@@ -75,7 +75,11 @@ void TwoPointsNumericalDerivative::updateDerivatives(const ParameterList& parame
         catch (ConstraintException& ce)
         {
           if (++nbtry == 10) // no possibility to compute derivatives
+          {
+            if (p.size() > 1)
+              function_->setParameters(p.createSubList(1)); // the previous parameter has not been reset yet
             break;
+          }
           else if (h < 0)
             h = -h; // try on the right
           else
